@@ -38,7 +38,8 @@ def features(P):
 
 def make_corpus(ctx, n, **opts):
     g = Gen(ctx.rng, **opts)
-    return [g.problem() for _ in range(n)]
+    gi = Gen(ctx.rng, ifuns=True, **opts)  # every fourth problem uses interpreted functions (finite tables)
+    return [(gi if i % 4 == 3 else g).problem() for i in range(n)]
 
 
 def observe_corpus(ctx, corpus, depth, cap, mode):
